@@ -75,6 +75,9 @@ type Host struct {
 	// "rate" ops; state of a module outside the one under test, so it is kept by the harness
 	rates     map[string]string
 	rateAsked int
+	// noForeign: this chain was started from an exported genesis by a binary that does not contain the foreign module
+	// (nothing registers its callbacks): its contexts are still there, paused, and nobody may drive them
+	noForeign bool
 }
 
 func newApp(db dbm.DB, multiToken ...bool) *simapp.SimApp {
@@ -89,6 +92,10 @@ func newApp(db dbm.DB, multiToken ...bool) *simapp.SimApp {
 
 func (h *Host) registerForeign() {
 	k := h.app.ServiceKeeper
+	if h.noForeign {
+		h.registerRest()
+		return
+	}
 	must(k.RegisterResponseCallback(foreignModule, func(ctx sdk.Context, id tmbytes.HexBytes, outputs []string, err error) {
 		rec := CallbackRec{Kind: "resp", Ctx: strings.ToLower(id.String()), Outputs: append([]string{}, outputs...)}
 		if err != nil {
@@ -100,6 +107,12 @@ func (h *Host) registerForeign() {
 	must(k.RegisterStateCallback(foreignModule, func(ctx sdk.Context, id tmbytes.HexBytes, cause string) {
 		h.callbacks = append(h.callbacks, CallbackRec{Kind: "state", Ctx: strings.ToLower(id.String()), Cause: cause})
 	}))
+	h.registerRest()
+}
+
+// registerRest: everything registerForeign registers besides the foreign module's own two callbacks
+func (h *Host) registerRest() {
+	k := h.app.ServiceKeeper
 	// two sloppy modules that registered only one of the two callbacks: the keeper must refuse contexts for them
 	must(k.RegisterResponseCallback("halfresp", func(ctx sdk.Context, id tmbytes.HexBytes, outputs []string, err error) {}))
 	must(k.RegisterStateCallback("halfstate", func(ctx sdk.Context, id tmbytes.HexBytes, cause string) {}))
